@@ -80,3 +80,25 @@ def strhash(s):
     for ch in s.encode():
         h = ((h ^ ch) * 1099511628211) & MASK64
     return h
+
+
+def _json_numpy_scalars():
+    """Keys, descriptions and samples may hold NumPy scalars (e.g. an axis spelled as np.int64): serialise them as plain numbers."""
+    import json
+
+    import numpy
+
+    orig = json.JSONEncoder.default
+
+    def default(self, o):
+        if isinstance(o, numpy.generic):
+            return o.item()
+        if isinstance(o, numpy.ndarray):
+            return o.tolist()
+        return orig(self, o)
+
+    if getattr(json.JSONEncoder.default, "__name__", "") != "default" or json.JSONEncoder.default is orig and orig.__qualname__ == "JSONEncoder.default":
+        json.JSONEncoder.default = default
+
+
+_json_numpy_scalars()
